@@ -393,4 +393,20 @@ def rowTags (e : Engine) : List ColDecl → List IVal → List String
   | d :: ds, v :: vs => colTags e d v ++ rowTags e ds vs
   | _, _ => []
 
+/-! ### Column-subset INSERT and INSERT … SELECT -/
+
+/-- `INSERT INTO t(cols…) VALUES (…)`: the columns not listed get `(cast T null)`. -/
+def expandRow (ncols : Nat) (cols : List Nat) (vs : List IVal) : List IVal :=
+  (List.range ncols).map fun i =>
+    match (cols.zip vs).find? (fun p => p.1 == i) with
+    | some p => p.2
+    | none => .null
+
+/-- `INSERT INTO t SELECT * FROM s`: one statement — every row converts or nothing is stored. -/
+def insertSelect (decls : List ColDecl) (src : List (List IVal)) : List (List IVal) :=
+  if src.all (fun r => (castRow decls r).isOk) then insertAll decls src else []
+
+def specInsertSelect (decls : List ColDecl) (src : List (List IVal)) : List (List IVal) :=
+  if src.all (fun r => (specRow decls r).isOk) then specTable decls src else []
+
 end RlModel
